@@ -19,8 +19,38 @@ SITES = [
 ]
 
 
-def _parse_version_call_kind(tree: ast.Module) -> tuple[str, bool]:
-    """Which regex entry point parse_version uses, and whether it returns int(group 1..3)."""
+_COMPONENT_SRC = """def _component(digits: str) -> int:
+    if len(digits) <= _COMPONENT_CHUNK_DIGITS:
+        return int(digits)
+    value = 0
+    for start in range(0, len(digits), _COMPONENT_CHUNK_DIGITS):
+        chunk = digits[start:start + _COMPONENT_CHUNK_DIGITS]
+        value = value * 10 ** len(chunk) + int(chunk)
+    return value"""
+
+
+def _component_unbounded(tree: ast.Module, conv: str) -> bool:
+    """Is the component conversion free of CPython's int-string digit limit?  `int` is not (ValueError beyond
+    sys.get_int_max_str_digits()); the chunked helper `_component` is, when it has exactly the recognised body and its
+    chunk size is below the default limit."""
+    if conv != "_component":
+        return False
+    fn = next((n for n in tree.body if isinstance(n, ast.FunctionDef) and n.name == "_component"), None)
+    if fn is None:
+        return False
+    body = fn.body[1:] if fn.body and isinstance(fn.body[0], ast.Expr) and isinstance(getattr(fn.body[0], "value", None), ast.Constant) else fn.body
+    got = "def _component(" + ast.unparse(fn.args) + ") -> " + (ast.unparse(fn.returns) if fn.returns else "") + ":\n" + "\n".join(
+        "    " + line for st in body for line in ast.unparse(st).splitlines())
+    if ast.unparse(ast.parse(got)) != ast.unparse(ast.parse(_COMPONENT_SRC)):
+        return False
+    for n in tree.body:
+        if isinstance(n, ast.Assign) and ast.unparse(n.targets[0]) == "_COMPONENT_CHUNK_DIGITS":
+            return isinstance(n.value, ast.Constant) and isinstance(n.value.value, int) and 1 <= n.value.value <= 4300
+    return False
+
+
+def _parse_version_call_kind(tree: ast.Module) -> tuple[str, bool, str]:
+    """Which regex entry point parse_version uses, whether it returns conv(group 1..3), and which conversion `conv` is."""
     for node in ast.walk(tree):
         if isinstance(node, ast.FunctionDef) and node.name == "parse_version":
             kind = "unknown"
@@ -33,6 +63,7 @@ def _parse_version_call_kind(tree: ast.Module) -> tuple[str, bool]:
                 ):
                     kind = n.func.attr
             ret_ok = False
+            conv = ""
             for n in ast.walk(node):
                 if isinstance(n, ast.Return) and isinstance(n.value, ast.Tuple) and len(n.value.elts) == 3:
                     want = [1, 2, 3]
@@ -41,7 +72,7 @@ def _parse_version_call_kind(tree: ast.Module) -> tuple[str, bool]:
                         if (
                             isinstance(e, ast.Call)
                             and isinstance(e.func, ast.Name)
-                            and e.func.id == "int"
+                            and e.func.id in ("int", "_component")
                             and len(e.args) == 1
                             and isinstance(e.args[0], ast.Call)
                             and isinstance(e.args[0].func, ast.Attribute)
@@ -50,9 +81,10 @@ def _parse_version_call_kind(tree: ast.Module) -> tuple[str, bool]:
                             and isinstance(e.args[0].args[0], ast.Constant)
                         ):
                             got.append(e.args[0].args[0].value)
+                            conv = e.func.id if conv in ("", e.func.id) else "mixed"
                     ret_ok = got == want
-            return kind, ret_ok
-    return "missing", False
+            return kind, ret_ok, conv
+    return "missing", False, ""
 
 
 def _gate_site(path: Path) -> dict:
@@ -165,7 +197,9 @@ def emit() -> dict[str, str]:
 
     rx = md.SEMVER_REGEX
     pat = pattern_to_lean(rx.pattern, rx.flags)
-    kind, ret_ok = _parse_version_call_kind(ast.parse((REPO / "vgi_rpc/metadata.py").read_text()))
+    md_tree = ast.parse((REPO / "vgi_rpc/metadata.py").read_text())
+    kind, ret_ok, conv = _parse_version_call_kind(md_tree)
+    unbounded = _component_unbounded(md_tree, conv)
     sites = []
     for name, rel in SITES:
         s = _gate_site(REPO / rel)
@@ -192,8 +226,12 @@ def pattern : Pat :=
 /-- entry point used by `parse_version`: "match" | "fullmatch" | "search" -/
 def callKind : String := "{kind}"
 
-/-- `parse_version` returns `(int(m.group(1)), int(m.group(2)), int(m.group(3)))` -/
+/-- `parse_version` returns `(conv(m.group(1)), conv(m.group(2)), conv(m.group(3)))` with conv = `int` or `_component` -/
 def returnsIntGroups : Bool := {str(ret_ok).lower()}
+
+/-- the component conversion has no digit-count limit (`int()` alone raises ValueError beyond 4300 digits, which the gate
+would report as "malformed" although the text is canonical semver); true for the recognised chunked `_component` helper -/
+def componentUnbounded : Bool := {str(unbounded).lower()}
 
 structure GateSite where
   name : String
